@@ -30,6 +30,58 @@ func (p *Prog) Func(name string) *ssa.Function {
 // FuncOpt is Func without failing.
 func (p *Prog) FuncOpt(name string) *ssa.Function { return p.Funcs[name] }
 
+// AliasConverted re-binds anchor names whose function was converted between a
+// method and a plain function taking the former receiver as first parameter
+// ("(*T).m" <-> "m", or a method moved to a named function type): when the
+// name is gone and exactly one top-level function or method of the package
+// carries the same identifier, it answers to the old name too.  go/ssa gives
+// both forms the same parameter list (receiver first), so rules keep working.
+func (p *Prog) AliasConverted(names []string) {
+	if p.Converted == nil {
+		p.Converted = map[*ssa.Function]string{}
+	}
+	base := func(n string) string {
+		for i := len(n) - 1; i >= 0; i-- {
+			if n[i] == '.' {
+				return n[i+1:]
+			}
+		}
+		return n
+	}
+	taken := map[*ssa.Function]bool{}
+	for _, n := range names {
+		if f := p.Funcs[n]; f != nil {
+			taken[f] = true
+		}
+	}
+	for _, n := range names {
+		if p.Funcs[n] != nil || len(n) == 0 || containsDollar(n) {
+			continue
+		}
+		var cand []*ssa.Function
+		for _, f := range p.FuncList {
+			if f.Parent() == nil && f.Synthetic == "" && !taken[f] && f.Name() == base(n) {
+				cand = append(cand, f)
+			}
+		}
+		if len(cand) == 1 {
+			p.Funcs[n] = cand[0]
+			p.Converted[cand[0]] = n
+			convertedNames[cand[0]] = n
+			taken[cand[0]] = true
+		}
+	}
+}
+
+func containsDollar(s string) bool {
+	for i := 0; i < len(s); i++ {
+		if s[i] == '$' {
+			return true
+		}
+	}
+	return false
+}
+
 // Named resolves a package-level named type.
 func (p *Prog) Named(name string) *types.Named {
 	o := p.Types.Scope().Lookup(name)
